@@ -91,7 +91,15 @@ class Envelope(object):
 
     def _msg_generator(self, msg):
         outfp = BytesIO()
-        BytesGenerator(outfp, policy=SMTP).flatten(msg, False)
+        try:
+            BytesGenerator(outfp, policy=SMTP).flatten(msg, False)
+        except (UnicodeError, IndexError):
+            # Re-folding an over-long header line that holds undecodable
+            # bytes fails inside the email package: emit such headers as
+            # they were received.
+            outfp = BytesIO()
+            policy = SMTP.clone(refold_source='none')
+            BytesGenerator(outfp, policy=policy).flatten(msg, False)
         return outfp.getvalue()
 
     def _merge_payloads(self, headers, payload):
